@@ -1,0 +1,12 @@
+//go:build verif
+
+// Machine-checked contracts for govc (see /verif/DESIGN.md). Comments only;
+// compiled only with the build tag "verif".
+
+package requestcontext
+
+//@ iface (Context).Finalize
+//@   logged fin
+
+//@ iface (ContextFactory).Create
+//@   logged mkctx
